@@ -342,6 +342,8 @@ template <class Cfg> struct Machine
             Img& im = img(s);
             long w = im.width(), h = im.height();
             if (w * h > 0 && !im._memory) fail("non-empty-image-without-storage");
+            // "owns exactly one live allocation of the size it recorded (or none when empty)": no block, no recorded size
+            if (!im._memory && im._allocated_bytes != 0) fail("recorded-size-without-allocation");
             if (im._memory)
             {
                 auto it = L().live.find(im._memory);
